@@ -7,7 +7,7 @@ from vp import sut
 ID = "C17"
 LEVEL = "exploration"
 RULE = ("Cases are (ns, nswin, overlap, fs) with 0 <= overlap < nswin. The box ns<=NS x nswin<=NW x every overlap is "
-        "enumerated exhaustively (quick 160x32, thorough 400x64) and Hypothesis adds random large triples built by "
+        "enumerated exhaustively (quick 160x32, thorough 600x80) and Hypothesis adds random large triples built by "
         "construction (window count <= 300, ns up to ~1e7). Oracle: windows recomputed from the definition (stride "
         "nswin-overlap, clip, stop at end) plus validity predicates: cover without gap, consecutive overlap == "
         "requested, nwin == count, iw == running index, tscale == centre/fs, valid sub-windows partition [0,ns) "
@@ -15,8 +15,8 @@ RULE = ("Cases are (ns, nswin, overlap, fs) with 0 <= overlap < nswin. The box n
         "last window shorter than 2*overlap) or (overlap 0 with >=2 windows) or ns <= nswin. Distinct = distinct triple.")
 EXHAUSTIVE_NOTE = "box ns x nswin x overlap enumerated completely (see rule); random triples beyond the box are sampled"
 ASSUMPTIONS = ["splicing sums are evaluated on arrays only for ns <= 200000; larger random cases check intervals only"]
-BUDGET = {"quick": 10000, "thorough": 60000}
-BOX = {"quick": (160, 32), "thorough": (400, 64)}
+BUDGET = {"quick": 10000, "thorough": 400000}
+BOX = {"quick": (160, 32), "thorough": (600, 80)}
 
 
 def enum_shards(tier):
